@@ -540,6 +540,9 @@ func (r *run) finish(t0 time.Time) int {
 	}
 
 	ev := r.counters["evaluations"]
+	if k := r.counters["oracle_evaluations_keyed"]; k > ev {
+		ev = k // a case may comprise several keyed oracle evaluations (e.g. both directions of a codec)
+	}
 	dn := int64(r.keys.Len())
 	cov := map[string]interface{}{
 		"evaluations":         ev,
